@@ -11,6 +11,7 @@ functions on concrete arguments)."""
 from pyvc.core import Contract, contract, prop, internal
 from pyvc.models import std, SymBytes
 from pyvc.spec import And, Or, Not, Implies, Ite, eq
+from pyvc.sym import SymNum
 
 
 def _items(b):
@@ -58,6 +59,9 @@ class _Font:
         return self.order
 
 
+_ABSENT = object()
+
+
 class _Patched:
     PATCH = (("fontTools.ttLib.tables.otBase", ("struct", "array", "bytesjoin", "Tag")),
              ("fontTools.ttLib.tables.otConverters", ("struct", "bytesjoin")))
@@ -74,17 +78,20 @@ class _Patched:
                 if c is not None:
                     x = c
             return _RealTag(x)
-        models = dict(std("struct", "array", "bytesjoin"), Tag=Tag)
+        models = dict(std("struct", "array", "bytesjoin", "int"), Tag=Tag)
         self._saved = []
         for modname, names in self.PATCH:
             m = importlib.import_module(modname)
             for n in names:
-                self._saved.append((m, n, getattr(m, n)))
+                self._saved.append((m, n, m.__dict__.get(n, _ABSENT)))      # builtins such as int are shadowed by a module global
                 setattr(m, n, models[n])
 
     def teardown(self):
         for m, n, v in self._saved:
-            setattr(m, n, v)
+            if v is _ABSENT:
+                m.__dict__.pop(n, None)
+            else:
+                setattr(m, n, v)
 
 
 def _compile(table, font, tag="GPOS"):
@@ -524,3 +531,158 @@ class WholeTableRoundTrip(_Patched, Contract):
         prop("decompile-of-compile-is-the-same-object-model", lambda a, old, r: And(*_deep_eq(r[1].table, a.self.table))),
         prop("second-generation-bytes-identical", lambda a, old, r: SymBytes.of(r[0]) == SymBytes.of(r[2])),
     ]
+
+
+# -- struct-coded tables with symbolic numbers ---------------------------------------------------------
+
+class _TFont(_Font):
+    def __init__(self, order, **tables):
+        _Font.__init__(self, order)
+        self.tables = tables
+
+    def __getitem__(self, tag):
+        return self.tables[tag]
+
+    def __contains__(self, tag):
+        return tag in self.tables
+
+    def getReverseGlyphMap(self, rebuild=False):
+        return {g: i for i, g in enumerate(self.order)}
+
+
+@contract
+class StructTableRoundTrip(_Patched, Contract):
+    """Small struct-coded tables with symbolic numeric content, through the real compile and
+    decompile: 'kern' format 0 (pair values), 'gasp' (behaviours; the version follows from the
+    flags used), 'VORG' (vertical origins), 'LTSH', 'avar' version 1 (segment maps in F2Dot14).
+    An independent reading of the bytes gives the values; decompile gives the table back."""
+    module = "fontTools.ttLib.tables._k_e_r_n"
+    qualname = "KernTable_format_0.compile"
+    props = ("C02", "C01")
+    shadow_mode = "real"
+    variants = ("kern0", "gasp", "VORG", "LTSH", "avar")
+    level = "PF"
+    max_paths = 20000
+    PATCH = _Patched.PATCH + (
+        ("fontTools.ttLib.tables._k_e_r_n", ("struct", "array")),
+        ("fontTools.ttLib.tables._g_a_s_p", ("struct", "int")),
+        ("fontTools.ttLib.tables.V_O_R_G_", ("struct", "bytesjoin")),
+        ("fontTools.ttLib.tables.L_T_S_H_", ("struct", "array")),
+    )
+
+    def setup(self):
+        _Patched.setup(self)
+        import importlib
+        from pyvc.models import fixed_tools
+        ft = fixed_tools()
+        m = importlib.import_module("fontTools.ttLib.tables.otConverters")
+        for n, v in (("fl2fi", ft.floatToFixed), ("fi2fl", ft.fixedToFloat)):
+            self._saved.append((m, n, getattr(m, n)))
+            setattr(m, n, v)
+
+    def args(self, S, variant):
+        from fontTools.ttLib import newTable
+        order = [".notdef", "A", "B", "C"]
+        font = _TFont(order)
+        i16 = lambda n: S.int(n, -32768, 32767)
+        if variant == "kern0":
+            from fontTools.ttLib.tables._k_e_r_n import KernTable_format_0
+            t = newTable("kern")
+            t.version = 0
+            st = KernTable_format_0()
+            st.coverage, st.tupleIndex = 1, None
+            st.kernTable = {("A", "B"): i16("kAB"), ("B", "A"): i16("kBA"), ("C", "C"): i16("kCC")}
+            t.kernTables = [st]
+        elif variant == "gasp":
+            t = newTable("gasp")
+            t.version = 0
+            t.gaspRange = {8: S.int("b8", 0, 15), 16: S.int("b16", 0, 15), 0xFFFF: S.int("bmax", 0, 15)}
+        elif variant == "VORG":
+            t = newTable("VORG")
+            t.majorVersion, t.minorVersion = 1, 0
+            t.defaultVertOriginY = i16("default")
+            t.VOriginRecords = {"B": i16("vB"), "A": i16("vA")}
+            t.numVertOriginYMetrics = 2
+        elif variant == "LTSH":
+            t = newTable("LTSH")
+            t.yPels = {g: S.int("pel_" + g, 0, 255) for g in order}
+        else:
+            t = newTable("avar")
+            t.majorVersion, t.minorVersion = 1, 0
+            # keys and values on the 2.14 grid: k / 16384 with symbolic integers k (kept ordered)
+            self._ks = ks = [S.int("from%d" % i, -16383, 16383) for i in range(2)]
+            self._vs = vs = [S.int("to%d" % i, -16384, 16384) for i in range(2)]
+            f = (lambda k: k / 16384) if S.concrete else (lambda k: SymNum(k.real() / 16384))
+            t.segments = {"wght": {-1.0: -1.0, f(ks[0]): f(vs[0]), f(ks[1]): f(vs[1]), 1.0: 1.0}}
+            fvar = newTable("fvar")
+            ax = type("Axis", (), {})()
+            ax.axisTag = "wght"
+            fvar.axes = [ax]
+            font = _TFont(order, fvar=fvar)
+        return dict(self=t, font=font, _v=variant)
+
+    def requires(self, a):
+        if a._v == "avar":
+            return self._ks[0] < self._ks[1]
+        return True
+
+    def call(self, f, a):
+        from fontTools.ttLib import newTable
+        t = a.self
+        data = t.compile(a.font)
+        back = newTable(t.tableTag)
+        back.decompile(data, a.font)
+        return data, back
+
+    def _layout(self, a, r):
+        b = _items(r[0])
+        t, v = a.self, a._v
+        if v == "kern0":
+            pairs = sorted((a.font.order.index(l), a.font.order.index(rr), val) for (l, rr), val in t.kernTables[0].kernTable.items())
+            cs = [len(b) == 4 + 6 + 8 + 6 * 3, eq(u16(b, 0), 0), eq(u16(b, 2), 1), eq(u16(b, 4), 0), eq(u16(b, 6), len(b) - 4),
+                  eq(b[8], 0), eq(b[9], 1), eq(u16(b, 10), 3)]
+            for i, (l, rr, val) in enumerate(pairs):
+                o = 18 + 6 * i
+                cs += [eq(u16(b, o), l), eq(u16(b, o + 2), rr), eq(s16(b, o + 4), val)]
+            return And(*cs)
+        if v == "gasp":
+            items = sorted(t.gaspRange.items())
+            newer = Or(*[val >= 4 for _, val in items])
+            return And(len(b) == 4 + 4 * 3, eq(u16(b, 0), Ite(newer, 1, 0)), eq(u16(b, 2), 3),
+                       *[And(eq(u16(b, 4 + 4 * i), k), eq(u16(b, 6 + 4 * i), val)) for i, (k, val) in enumerate(items)])
+        if v == "VORG":
+            recs = sorted((a.font.order.index(g), y) for g, y in t.VOriginRecords.items())
+            return And(len(b) == 8 + 4 * 2, eq(u16(b, 0), 1), eq(u16(b, 2), 0), eq(s16(b, 4), t.defaultVertOriginY), eq(u16(b, 6), 2),
+                       *[And(eq(u16(b, 8 + 4 * i), g), eq(s16(b, 10 + 4 * i), y)) for i, (g, y) in enumerate(recs)])
+        if v == "LTSH":
+            return And(len(b) == 4 + 4, eq(u16(b, 0), 0), eq(u16(b, 2), 4), *[eq(b[4 + i], t.yPels[g]) for i, g in enumerate(a.font.order)])
+        # avar: version 1.0, reserved, axisCount 1, positionMapCount 4, then (from, to) F2Dot14 pairs ascending by from
+        ks, vs = self._ks, self._vs
+        return And(len(b) == 8 + 2 + 16, eq(u16(b, 0), 1), eq(u16(b, 2), 0), eq(u16(b, 6), 1), eq(u16(b, 8), 4),
+                   eq(s16(b, 10), -16384), eq(s16(b, 12), -16384),
+                   eq(s16(b, 14), ks[0]), eq(s16(b, 16), vs[0]), eq(s16(b, 18), ks[1]), eq(s16(b, 20), vs[1]),
+                   eq(s16(b, 22), 16384), eq(s16(b, 24), 16384))
+
+    def _same(self, a, r):
+        t, u, v = a.self, r[1], a._v
+        if v == "kern0":
+            x, y = t.kernTables[0].kernTable, u.kernTables[0].kernTable
+            return And(sorted(x) == sorted(y), u.version == 0, *[eq(y[k], x[k]) for k in x])
+        if v == "gasp":
+            return And(sorted(u.gaspRange) == sorted(t.gaspRange), *[eq(u.gaspRange[k], t.gaspRange[k]) for k in t.gaspRange])
+        if v == "VORG":
+            return And(eq(u.defaultVertOriginY, t.defaultVertOriginY), sorted(u.VOriginRecords) == sorted(t.VOriginRecords),
+                       *[eq(u.VOriginRecords[g], t.VOriginRecords[g]) for g in t.VOriginRecords])
+        if v == "LTSH":
+            return And(sorted(u.yPels) == sorted(t.yPels), *[eq(u.yPels[g], t.yPels[g]) for g in t.yPels])
+        want = sorted(((k, val) for k, val in t.segments["wght"].items()), key=lambda kv: 0)  # compared as multisets below
+        got = list(u.segments["wght"].items())
+        if len(got) != 4:
+            return False
+        # every stored pair of the original appears in the decoded map
+        return And(*[Or(*[And(eq(gk, k), eq(gv, val)) for gk, gv in got]) for k, val in t.segments["wght"].items()])
+
+    @property
+    def ensures(self):
+        return [prop("bytes-read-per-format-give-the-values", lambda a, old, r, self=self: self._layout(a, r)),
+                prop("decompile-gives-the-table-back", lambda a, old, r, self=self: self._same(a, r))]
